@@ -30,6 +30,9 @@ TRUSTED = [
     "validate_field, MdParserConfig(), slug functions, token_line, directive.run, role functions, jinja render/parse, "
     "Sphinx make_refnode / domain.resolve_* / events.emit, list.index, sorted, max/min, next, re.compile",
     "coq/Exc/ExcFlow.v tables 'declared', 'whitelist' (each entry with a justification string), 'out_scope'",
+    "gen/c01_guards.py: the mapping of the Python set/list operations on the guard state (intersection, update, "
+    "difference_update, append, pop, in, truthiness) to the py_* primitives of coq/Exc/CoreModel.v, and the abstraction of the "
+    "nested render to a function parameter",
     "the curated callee recognition of gen/c01_excflow.py (RAISING_* / TOTAL_* tables): a builtin or an imported "
     "stdlib/third-party function that is in neither table stops the translation; method calls on objects are sites only "
     "for the listed method names; subscripts, attribute access and arithmetic are not sites",
@@ -72,6 +75,12 @@ def gen(ctx):
     ctx.gen_info["Gen/ExcFlow.v"] = {"sha": common.hashlib.sha256(text.encode()).hexdigest()[:16], "sites": len(sites),
                                      "raise_stmts": len(raises), "rewritten": changed}
     ctx.c01_sites = sites
+    # source translation of the two re-entrancy guards (round 3)
+    from gen import c01_guards
+    gtext = c01_guards.generate(REPO)
+    write_if_changed(COQ / "Gen" / "GuardSrc.v", gtext)
+    ctx.gen_info["Gen/GuardSrc.v"] = {"sha": common.hashlib.sha256(gtext.encode()).hexdigest()[:16]}
+    ctx.gen_info["handler_rows"] = len(c01_excflow.LAST_HANDLER_ROWS)
 
 
 # ------------------------------------------------------------------------------------------------ correspondence
@@ -763,6 +772,57 @@ def fixed_cases():
     return cs
 
 
+def fs_fault_cases():
+    """File-system faults named by the quantifier, as a fixed matrix: every way MyST reads a file named by the document
+    (include plain / literal / code / with options, eval-rst include, literalinclude, csv-table :file:, raw :file:,
+    figure / image paths) x fault (missing, directory, undecodable bytes, over-long name, self-inclusion, cyclic) x front
+    end; inventories (myst_inventories / intersphinx) pointing at missing, directory, empty, garbage, truncated-zlib,
+    non-UTF-8, header-only files and at an unreachable URL.  (The sandbox user is root, so permission-denied cannot be
+    produced with chmod; special files such as /dev/zero or a FIFO make Path.read_text block or exhaust memory exactly
+    as docutils' own include does - recorded in the notes as an observation, not exercised here.)"""
+    files = {"adir": {"dir": 1}, "undec.md": {"b": [0x43, 0x61, 0x66, 0xe9, 0x0a, 0xff, 0xfe]}, "undec.csv": {"b": [0xff, 0xfe, 0x2c, 0xe9]},
+             "good.md": {"t": "good *text*\n"}, "cyc_a.md": {"t": "```{include} cyc_b.md\n```\n"}, "cyc_b.md": {"t": "```{include} cyc_a.md\n```\n"}}
+    targets = {"missing": "nothere.md", "dir": "adir", "undecodable": "undec.md", "toolong": "x" * 300 + ".md", "self": "__SELF__", "cycle": "cyc_a.md",
+               "deep-missing": "a/b/c/nothere.md", "parent-escape": "../" * 40 + "etc/hostname-nothere"}
+    forms = {
+        "include": "```{include} %s\n```\n", "include-literal": "```{include} %s\n:literal:\n```\n",
+        "include-code": "```{include} %s\n:code: python\n:number-lines: 1\n```\n",
+        "include-clip": "```{include} %s\n:start-after: X\n:end-before: Y\n:start-line: 1\n```\n",
+        "include-encoding": "```{include} %s\n:encoding: ascii\n```\n",
+        "rst-include": "```{eval-rst}\n.. include:: %s\n```\n", "rst-include-literal": "```{eval-rst}\n.. include:: %s\n   :literal:\n```\n",
+        "csv-file": "```{csv-table}\n:file: %s\n```\n", "raw-file": "```{raw} html\n:file: %s\n```\n",
+        "figure": "```{figure} %s\ncaption\n```\n", "image": "```{image} %s\n```\n![alt](%s)\n", "figure-figwidth-image": "```{figure} %s\n:figwidth: image\n```\n",
+        "literalinclude": "```{literalinclude} %s\n```\n", "md-image-link": "![a](%s) [l](%s) <path:%s>\n",
+    }
+    out = []
+    for fe in ("docutils", "sphinx"):
+        for fname, form in forms.items():
+            if fname == "literalinclude" and fe == "docutils":
+                continue
+            for tname, tgt in targets.items():
+                text = form.replace("%s", tgt)
+                out.append({"fe": fe, "text": text, "settings": {}, "files": dict(files), "name": "index.md", "tag": f"fs:{fname}:{tname}"})
+    inv_faults = {
+        "missing": (None, "__DIR__/nothere.inv"), "dir": ({"d.inv": {"dir": 1}}, "__DIR__/d.inv"),
+        "empty": ({"k.inv": {"rawinv": []}}, "__DIR__/k.inv"), "garbage": ({"k.inv": {"rawinv": list(b"garbage\x00\xff")}}, "__DIR__/k.inv"),
+        "header-only": ({"k.inv": {"rawinv": list(b"# Sphinx inventory version 2\n")}}, "__DIR__/k.inv"),
+        "not-zlib": ({"k.inv": {"rawinv": list(b"# Sphinx inventory version 2\n# Project: p\n# Version: 1\n# zlib\nnot-zlib-data")}}, "__DIR__/k.inv"),
+        "truncated": ({"k.inv": {"inv": [["py", "function", "f", "a.html#$", "-"]] * 40, "truncate": 25}}, "__DIR__/k.inv"),
+        "latin1": ({"k.inv": {"inv": [["py", "function", "f", "a", "\xff"]], "latin1": 1}}, "__DIR__/k.inv"),
+        "bad-header-bytes": ({"k.inv": {"rawinv": list(b"# Sphinx inventory version 2\n# Project: \xff\n# Version: 1\n# zlib\n")}}, "__DIR__/k.inv"),
+        "v1": ({"k.inv": {"rawinv": list(b"# Sphinx inventory version 1\n# Project: p\n# Version: 1\nf function api.html\nbroken\n")}}, "__DIR__/k.inv"),
+        "url-refused": (None, None),
+    }
+    for name, (fl, path) in inv_faults.items():
+        url = "http://127.0.0.1:1/inv/" if path is None else "https://k.e.org/"
+        doc = "<inv:#f> [x](inv:k:py:function#f) [y](inv:k#*)\n"
+        out.append({"fe": "docutils", "text": doc, "settings": {"myst_inventories": {"k": [url, path]}}, "files": dict(fl or {}), "name": "index.md",
+                    "tag": f"fs:inventory:{name}"})
+        out.append({"fe": "sphinx", "text": doc + "\n{external+k:py:func}`f`\n", "settings": {}, "files": dict(fl or {}), "name": "index.md",
+                    "intersphinx": {"k": [url, path]}, "tag": f"fs:intersphinx:{name}"})
+    return out
+
+
 def report(ctx, case, r, confirm=True):
     what = f'{case["fe"]} front end: {r["exc"]} escapes the parser ({r["sig"]}): {r.get("msg", "")[:160]}'
     ctx.fail(r["sig"], case, what, expected="a document is returned; problems are reported as warnings / system messages",
@@ -787,6 +847,9 @@ def _search(ctx):
     cases = [{"fe": "docutils", "text": c["text"], "settings": dict(c.get("extra", {}).get("settings", {})),
               "files": dict(c.get("extra", {}).get("files", {})), "name": "index.md"} for c in sus[:50]]
     cases += fixed_cases()
+    fsc = fs_fault_cases()
+    cases += fsc
+    ctx.count("fs-fault-matrix", len(fsc))
     if ctx.deep:
         # the tie is broken: run the crafted inputs of every callee as plain search cases as well
         for key, func, text, extra in CRAFTED:
